@@ -1,19 +1,18 @@
 #!/bin/bash
-# usage: seedsweep.sh <out-file> <seed-id>...   -- applies each seeded patch to a scratch worktree of /repo, runs the quick check of its
-# property against that tree (FRGV_REPO), records the outcome, reverts. Evidence/replays of these runs go to build/*_scratch.
+# usage: seedsweep.sh <results.tsv> <seed-id>...   -- applies each seeded patch to a scratch worktree of /repo (at /repo's HEAD), runs the quick
+# check of its property against that tree (FRGV_REPO), appends "<seed>\t<outcome>\t<obligation>\t<message>" and reverts.
 out=$1; shift
 cd /verif
+H=$(git -C /repo rev-parse HEAD)
 for s in "$@"; do
   p=${s%-*}
   wt=/tmp/seed/$p
-  git -C $wt checkout -q -- . 2>/dev/null
-  if ! git -C $wt apply /verif/seeded/$s/patch.diff 2>/dev/null; then echo "$s apply-failed" >> $out; continue; fi
-  t0=$(date +%s)
-  res=$(FRGV_REPO=$wt timeout 3000 python3 vp.py check $p --tier quick 2>&1)
-  rc=$?
-  t1=$(date +%s)
-  nv=$(echo "$res" | grep -c '^VIOLATION')
-  first=$(echo "$res" | grep -m1 '^VIOLATION\|^TOOL-FAILURE' | cut -c1-300)
-  echo "$s rc=$rc violations=$nv time=$((t1-t0))s :: $first" >> $out
+  git -C $wt checkout -q -- . 2>/dev/null; git -C $wt checkout -q --detach $H 2>/dev/null
+  if ! git -C $wt apply /verif/seeded/$s/patch.diff 2>/dev/null; then printf "%s\tpatch does not apply to the repaired tree\t-\t-\n" $s >> $out; continue; fi
+  res=$(FRGV_REPO=$wt timeout 3400 python3 vp.py check $p --tier quick 2>&1); rc=$?
+  first=$(echo "$res" | grep -m1 '^VIOLATION\|^TOOL-FAILURE')
+  ob=$(echo "$first" | sed -n 's/.*obligation=\([^ ]*\).*/\1/p'); msg=$(echo "$first" | sed -n 's/.*obligation=[^ ]* *\(.*\)/\1/p' | cut -c1-160)
+  case $rc in 1) o="caught (exit 1, $(echo "$res" | grep -c '^VIOLATION') obligations fail)";; 0) o="MISSED (exit 0)";; *) o="undecided (exit $rc, tool failure)"; [ -z "$msg" ] && msg=$(echo "$first" | cut -c1-160);; esac
+  printf "%s\t%s\t%s\t%s\n" "$s" "$o" "${ob:--}" "${msg:--}" >> $out
   git -C $wt checkout -q -- .
 done
